@@ -163,6 +163,19 @@ def build_real(pg, case, order, via_add):
     return d
 
 
+def occurring(case):
+    """the populations the user's events mention"""
+    occ = set()
+    for e in case['events']:
+        if e['kind'] == 'discrete':
+            occ |= set(e['sizes']) | {p for k in e['mig'] for p in k}
+        elif e['kind'] == 'split':
+            occ |= set(e['derived']) | {e['ancestral']}
+        else:
+            occ |= set(e['key'][1:])
+    return occ
+
+
 def model_request(case, order, names_sorted):
     idx = {p: i for i, p in enumerate(names_sorted)}
     def key(k):
@@ -314,9 +327,12 @@ def one(ctx, i):
     with C.LogCapture():
         d = build_real(pg, case, order, via_add)
     names_sorted = sorted(case['names'])
-    if sorted(d.pop_names) != sorted(set(d.pop_names)) or set(d.pop_names) - set(names_sorted):
-        ctx.violation('pop-names', case=case, observed=d.pop_names)
-    names_sorted = list(d.pop_names)      # ids follow the sorted names of the populations that occur
+    # read BEFORE any epoch is generated: this is what `Coalescent(...)` reads when it is handed the demography
+    names_now = list(d.pop_names)
+    occ = occurring(case)
+    if sorted(names_now) != sorted(set(names_now)) or set(names_now) != occ or d.n_pops != len(occ):
+        ctx.violation('pop-names', case=case, via_add=via_add, observed=names_now, n_pops=int(d.n_pops), specified=sorted(occ))
+    names_sorted = sorted(occ | set(d.pop_names))      # ids follow the sorted names of the populations that occur
     real = table(d, COUNT)
     lazy = []
     for ep in itertools.islice(d.epochs, COUNT):
@@ -369,15 +385,21 @@ def one(ctx, i):
     if diff:
         ctx.violation('order-dependence', **detail, order2=order2, diff=diff)
     # Coalescent completes missing populations
-    if rng.random() < 0.3:
+    if rng.random() < 0.5:
         extra = 'zz_new'
         with C.LogCapture():
             coal = pg.Coalescent(n={case['names'][0]: 2, extra: 1}, demography=build_real(pg, case, order, via_add))
             ep0 = coal.demography.get_epoch(0)
         known = set(d.pop_names) | {case['names'][0]}
+        lin = {k: int(v) for k, v in coal.lineage_config.lineage_dict.items()}
         if ep0.pop_sizes.get(extra) != 1 or set(coal.lineage_config.pop_names) != known | {extra} \
-                or any(coal.lineage_config.lineage_dict[p] != 0 for p in known - {case['names'][0]}):
-            ctx.violation('completion', **detail, sizes=dict(ep0.pop_sizes), lineages={k: int(v) for k, v in coal.lineage_config.lineage_dict.items()})
+                or any(lin.get(p) != 0 for p in known - {case['names'][0]}):
+            ctx.violation('completion', **detail, sizes=dict(ep0.pop_sizes), lineages=lin)
+        # completing the sampled populations must leave every specified value as the user wrote it
+        elif any(ep0.pop_sizes.get(p) != v for p, v in real[0]['sizes'].items()) or \
+                any(ep0.migration_rates.get(k, 0) != v for k, v in real[0]['mig'].items()):
+            ctx.violation('completion-overrides', **detail, sizes=dict(ep0.pop_sizes), expected_sizes=real[0]['sizes'],
+                          rates={str(k): v for k, v in ep0.migration_rates.items() if k[0] != k[1]})
         ctx.count('completion')
 
 
